@@ -2,5 +2,17 @@ import JP.Props.FactsPatch
 import JP.Props.FactsMerge
 import JP.Props.FactsCodec
 import JP.Props.FactsLegacy
+import JP.Props.Bodies.V5Patch
+import JP.Props.Bodies.V5Merge
+import JP.Props.Bodies.CodecScanner
+import JP.Props.Bodies.CodecIndent
+import JP.Props.Bodies.CodecDecode
+import JP.Props.Bodies.CodecEncode
+import JP.Props.Bodies.CodecStream
+import JP.Props.Bodies.CodecOther
+import JP.Props.Bodies.LegacyPatch
+import JP.Props.Bodies.LegacyMerge
+import JP.Props.Bodies.Cmd
+import JP.Props.Bodies.Files
 
-/-! all regenerated-fact theorems (see the four modules) -/
+/-! all regenerated-fact theorems (see the four modules) and the source-text inventory (JP/Props/Bodies) -/
